@@ -196,6 +196,21 @@ def run(ctx):
                 got_d.setdefault(v[0], set()).add(re.sub(r"^(?:\w+::)*RoomPowerLevels::", "", D.show(p.ret)))
         bad_d = {k: sorted(v) for k, v in got_d.items() if v != {want_d.get(k)}}
         bad_d.update({k: ["<no arm>"] for k in want_d if k not in got_d})
+        # an arm that does not call the helper by name may still compute the same thing (e.g. both go through a shared private function): compare the
+        # arm with the helper after analysing every non-getter method of RoomPowerLevels in place
+        for k in [k for k in list(bad_d) if k in want_d and k in got_d]:
+            hm = re.match(r"(\w+)\((.*)\)$", want_d[k])
+            try:
+                hf = w.fn(H + hm.group(1))
+                hargs = [D.sym(x.strip()) for x in hm.group(2).split(",")]
+                sig = lambda p, drop: (frozenset((D.show_atom(a), t) for a, t in p.conds if not (drop and D.show(a[1]) == "action" and a[0] == "variant")), D.show(p.ret), p.kind)
+                arm = {sig(p, True) for p in dex.paths(f, [D.sym(x) for x in args])
+                       if any(a[0] == "variant" and t and D.show(a[1]) == "action" and a[2] == k for a, t in p.conds)}
+                ref = {sig(p, False) for p in dex.paths(hf, hargs)}
+                if arm and arm == ref:
+                    del bad_d[k]
+            except Exception:
+                pass
         ctx.check(not bad_d, rule2, f"{rule2}:{name}", w.where(f),
                   bad_msg=f"{name} does not hand each action to the helper of that action: {bad_d} (the generic entry point then disagrees with the authorization "
                           f"rules although the named helper agrees)")
